@@ -107,6 +107,9 @@ func regionsReplay(args []string) error {
 				ends[i] = f(x)
 			}
 			idx, panicked, msg := regNewIndex(starts, ends)
+			if ci%2 == 1 { // another index is built before this one is asked
+				regNewIndex([]int{1, 5, 3, 0}, []int{9, 6, 4, 2})
+			}
 			executed++
 			if panicked != c.Panic {
 				add(regMismatch{ci, mi, "newindex-panic", 0, 0, map[string]any{"panicked": panicked, "msg": msg}, c.Panic})
@@ -464,6 +467,11 @@ func regionsDrive(args []string) error {
 		r := newRand(int64(sid) + 16500)
 		// the index gets its own copies of the lists; what is logged is what was passed
 		idx, panicked, _ := regNewIndex(regCpInts(s.starts), regCpInts(s.ends))
+		if sid%2 == 1 { // other indexes are built (and dropped) between building this one and asking it
+			other := regGen(sid + 1)
+			regNewIndex(regCpInts(other.starts), regCpInts(other.ends))
+			regNewIndex([]int{1, 5, 3}, []int{9, 6, 4})
+		}
 		var ats []regRawAt
 		if !panicked && idx != nil {
 			qs := regQueries(s)
